@@ -35,7 +35,6 @@ def vws(ctx, prog, lib, roles):
         return
     b = r["body"]
     ws = common.const_table(lib, "unicode_tables::space::WHITE_SPACE")
-    # the table is located through C09's wiring rather than by name when possible
     clo, pred_class, info = common.classify_predicates(ctx, prog, lib)
     for p, tok in (pred_class or {}).items():
         if tok == "\\s":
@@ -48,65 +47,100 @@ def vws(ctx, prog, lib, roles):
         for cp in range(lo, hi + 1):
             ignored.add(chr(cp))
     ignored.add("#")
-    # characters already turned into ASCII escapes by the symbol escaper (every literal passes it: C11 ESCP-2)
+    # (a) characters already turned into ASCII escapes by the symbol escaper (every literal passes it: C11 ESCP-2)
     from .C01 import find_escaper
-    pre = {}
+    covered = {}
     for E in find_escaper(lib):
-        d = local.Defs(E)
-        for bi, t in E.calls():
-            if (callee_name(t) or "").endswith("<impl str>::replace") and len(t["args"]) == 3:
-                pv = local.const_value(local.peel(d.operand(t["args"][1])))
-                rv = local.const_value(local.peel(d.operand(t["args"][2])))
-                if isinstance(pv, str) and len(pv) == 1 and isinstance(rv, str):
-                    pre[pv] = rv
-    nv = 0
-    reported = set()
-    for fl in r["leaves"]:
-        if not fl.flags.get("verbose"):
+        for rs in fmtmodel.replace_sites(lib, E):
+            if rs["chars"] and len(rs["chars"]) == 1 and rs["rep"][0] == "const":
+                covered[rs["chars"][0]] = ccp.Tmpl([rs["rep"][1]])
+    # (b) str::replace passes of the printer itself that run (at least) when verbose mode is on
+    f_verbose = roles.get("verbose")
+    fi = guards.FnInfo.of(b)
+    sites = fmtmodel.replace_sites(lib, b)
+    unresolved = []
+    for rs in sites:
+        other = []
+        for g in rs["guards"]:
+            f = common.origin_config_field(g["origin"])
+            if f == f_verbose and guards.edge_truth(g) is True:
+                continue
+            o = local.peel(g["origin"])
+            # `if s.contains(c)` / `if !s.is_ascii()` around the replace only skip work that would change nothing
+            if o[0] == "call" and (o[1].endswith("<impl str>::contains") and guards.edge_truth(g) is True
+                                   or o[1].endswith("<impl str>::is_ascii") and guards.edge_truth(g) is False):
+                continue
+            other.append(local.show(g["origin"])[:80])
+        if other:
+            continue            # a pass under some other condition does not count as coverage
+        if rs["chars"] is None:
+            unresolved.append(rs)
             continue
-        nv += 1
-        covered = dict((c, ccp.Tmpl([rep])) for c, rep in pre.items())
-        for callee, chars, _ in fmtmodel.wrapper_patterns(fl):
-            pass
-        for callee, args in fl.wrappers:
-            if not callee.endswith("::replace") or len(args) < 2:
+        for c in rs["chars"]:
+            if rs["rep"][0] == "const":
+                covered[c] = ccp.Tmpl([rs["rep"][1]])
+            elif rs["rep"][0] == "escape_unicode_of_item":
+                covered[c] = ccp.Tmpl([ccp.Hole(ccp.Call("std::char::methods::<impl char>::escape_unicode", [ccp.CharV(c)]))])
+            else:
+                covered[c] = ccp.Tmpl([ccp.Hole(ccp.Top(rs["rep"][1]))])
+    # (c) a char-wise pass `s.chars().map(|c| ..).collect()` under the verbose setting, evaluated per ignored character
+    undecided = {}
+    d = fi.defs
+    for bi, t in b.calls():
+        n = callee_name(t) or ""
+        if not n.endswith("Iterator::map") or len(t["args"]) != 2:
+            continue
+        src = d.operand(t["args"][0])
+        if not (src[0] == "call" and src[1].endswith("<impl str>::chars")):
+            continue
+        gs = [g for g in guards.guards(b, bi) if not g["loop"]]
+        if any(common.origin_config_field(g["origin"]) not in (f_verbose, None) for g in gs):
+            continue
+        cl = d.operand(t["args"][1])
+        if not (cl[0] == "agg" and cl[1] == "closure" and lib.body(cl[2]) is not None):
+            continue
+        cb = lib.body(cl[2])
+        mm = ccp.Machine([lib], inline=lambda nme: True, max_depth=4)
+        env = ccp.Agg("closure", cb.path, None, [ccp.Top("capture") for _ in cb.captures])
+        for c in sorted(ignored):
+            if c in covered and exact_escape(c, covered[c]):
                 continue
-            pat, to = args[0], args[1]
-            chars = None
-            if isinstance(pat, ccp.CharV):
-                chars = [pat.c]
-            elif isinstance(pat, ccp.Agg) and all(isinstance(x, ccp.CharV) for x in pat.fields):
-                chars = [x.c for x in pat.fields]
-            if chars is None:
-                continue
-            for c in chars:
-                covered[c] = to
-        site = "%s|%s" % (b.path, ",".join("%s=%d" % kv for kv in sorted(fl.flags.items())))
-        missing = sorted(c for c in ignored if c not in covered)
-        inexact = sorted(c for c in ignored if c in covered and not exact_escape(c, covered[c]))
-        if missing and "m" not in reported:
-            reported.add("m")
-            ctx.violation("VWS-1", (b.path, "coverage"), "under (?x) the engine ignores %s but verbose output never rewrites %s"
-                          % ("White_Space and '#'", ["U+%04X" % ord(c) for c in missing]), b.loc())
-        if inexact:
-            groups = {}
-            for c in inexact:
-                groups.setdefault(ccp.show(covered[c]), []).append(c)
-            for rep, cs in groups.items():
-                k = ("x", rep)
-                if k in reported:
-                    continue
-                reported.add(k)
-                ctx.violation("VWS-2", (b.path, "replacement " + rep.strip("`")),
-                              "%d whitespace character(s) (%s) are rewritten to %s, which does not denote exactly that character (a class widens the language: "
-                              "'a\\u{a0}b' would also match 'a b')" % (len(cs), ", ".join("U+%04X" % ord(c) for c in cs[:6]) + (" ..." if len(cs) > 6 else ""), rep), b.loc())
-        if not missing and not inexact:
-            ctx.ok("VWS-1", site, {"ignored_under_x": len(ignored), "rewritten": len([c for c in ignored if c in covered])}, b.loc())
+            try:
+                ls = [l for l in mm.run(cb, [ccp.Ref(ccp.Cell(env)), ccp.CharV(c)]) if l.kind == "return"]
+            except Exception:
+                ls = []
+            vals = [l.value if isinstance(l.value, ccp.Tmpl) else ccp.to_tmpl(l.value) for l in ls]
+            if ls and all(exact_escape(c, v) for v in vals):
+                covered[c] = vals[0]
+            elif len(ls) > 1 and any(exact_escape(c, v) for v in vals):
+                undecided[c] = "; ".join(a for l in ls for a, _ in l.label[:1])
+    nv = len([fl for fl in r["leaves"] if fl.flags.get("verbose")])
+    for rs in unresolved:
+        ctx.undecided("VWS-1", b.path, "cannot tell which characters the str::replace at line %s rewrites" % rs["line"], b.loc(rs["line"]))
+    und = sorted(c for c in undecided if c not in covered)
+    if und:
+        ctx.violation("VWS-1", (b.path, "undecided coverage"), "cannot show that %s are escaped in verbose mode: the char-wise pass decides by %s, which is not "
+                      "a predicate this analysis can evaluate (the engine ignores exactly char::is_whitespace and '#')"
+                      % (["U+%04X" % ord(c) for c in und], undecided[und[0]][:120]), b.loc())
+    missing = sorted(c for c in ignored if c not in covered and c not in undecided)
+    inexact = sorted(c for c in ignored if c in covered and not exact_escape(c, covered[c]))
+    if missing:
+        ctx.violation("VWS-1", (b.path, "coverage"), "under (?x) the engine ignores White_Space and '#' but verbose output never rewrites %s"
+                      % ["U+%04X" % ord(c) for c in missing], b.loc())
+    groups = {}
+    for c in inexact:
+        groups.setdefault(ccp.show(covered[c]), []).append(c)
+    for rep, cs in groups.items():
+        ctx.violation("VWS-2", (b.path, "replacement " + rep.strip("`")),
+                      "%d whitespace character(s) (%s) are rewritten to %s, which does not denote exactly that character (a class widens the language: "
+                      "'a\\u{a0}b' would also match 'a b')" % (len(cs), ", ".join("U+%04X" % ord(c) for c in cs[:6]) + (" ..." if len(cs) > 6 else ""), rep), b.loc())
+    if not missing and not inexact and not und:
+        ctx.ok("VWS-1", b.path + ":coverage", {"ignored_under_x": len(ignored), "rewritten": len([c for c in ignored if c in covered]),
+                                                "replace_passes": len(sites), "verbose_paths": nv}, b.loc())
+        for c in sorted(ignored):
+            ctx.ok("VWS-2", "%s:U+%04X" % (b.path, ord(c)), {"rewritten_to": ccp.show(covered[c])}, b.loc())
     ctx.floor("VWS-1", "verbose paths of RegExp::fmt", nv, 24)
     fmtmodel.cas1(ctx, lib, roles)
-
-
-GROUP_SITES = None
 
 
 def group_printers(lib):
